@@ -12,6 +12,7 @@ import (
 	"fmt"
 	"reflect"
 	"strconv"
+	"strings"
 
 	"github.com/tonkeeper/tongo/boc"
 	"github.com/tonkeeper/tongo/code"
@@ -45,6 +46,7 @@ func init() {
 		"go.h.zeroslice":   goZeroSlice,
 		"go.net.gettx":     goNetGetTx,
 		"go.tl.nilptr":     goTLNilPtr,
+		"go.tl.int32":      goTLInt32,
 		"go.proof":         goProof,
 		"go.abi.stack":     goABIStack,
 	}
@@ -61,6 +63,8 @@ func genC08(g *h.G) {
 	gc.genHelpers()
 	gc.genTLB()
 	gc.genTLBModel()
+	gc.genAllocTie()
+	gc.genKAT()
 	gc.genProofs()
 	gc.genABIStacks()
 	gc.genDeep()
@@ -139,6 +143,8 @@ func (gc *genCtx) genHelpers() {
 		}
 	}
 	g.Emit("go.tl.nilptr")
+	// counts 2^31-1, 2^31, 2^32-1 and long-form byte prefixes, decoded by a 32-bit build of package tl
+	g.Emit("go.tl.int32", "ffffff7f01000000,0000008001000000,ffffffff01000000,feffffff01000000,ffffffff,00000080")
 	g.Emit("go.h.tuplebroken")
 	g.Emit("go.h.zeroslice")
 }
@@ -295,7 +301,19 @@ func exVmStack(a []string) string {
 	for i := range s {
 		s[i] = tlb.VmStackValue{SumType: "VmStkTinyInt", VmStkTinyInt: int64(i)}
 	}
-	return h.Outcome("", s.Unmarshal(structOfInt64(nf).Interface()))
+	dst := structOfInt64(nf)
+	if err := s.Unmarshal(dst.Interface()); err != nil {
+		return h.Outcome("", err)
+	}
+	// stack position i holds the value i: the answer lists which position every field was filled from
+	if nf == 0 {
+		return "ok -"
+	}
+	out := make([]string, nf)
+	for i := range out {
+		out[i] = strconv.FormatInt(dst.Elem().Field(i).Int(), 10)
+	}
+	return "ok " + strings.Join(out, ",")
 }
 
 func tinyIntCell(v int) *boc.Cell {
